@@ -217,3 +217,43 @@ func verifH_C01_pipeline_recovery() {
 	// stripped is C08_glue_client's subject)
 	verifReach("end")
 }
+
+// C01_concurrent_emitters: two goroutines emit an event with one binary attachment each on the same connection at the same
+// time (real emit -> sendBuffers -> packet queue), under all interleavings at synchronisation points; the queue's content
+// then travels through the pipeline of C01_pipeline_s2c to the client. Both events reach their own handler exactly
+// once, each with its own attachment: no event gets another event's frame as its attachment, none is lost, and the
+// client's decoder is left with no half-assembled packet.
+//
+//verif:unwind 40
+//verif:preempt 2
+//verif:visops 120
+//verif:rand concrete
+func verifH_C01_concurrent_emitters() {
+	w := verifServerWorld("/")
+	w.conn.parser = &verifPipeParser{}
+	srv := w.verifConnected("/")["/"]
+	srv.parser = &verifPipeParser{}
+	w.conn.eioPacketQueue.get() // drop the CONNECT reply
+
+	pipe := &verifPipeParser{}
+	m, cl := verifClientWorld(pipe, "/")
+	c := cl["/"]
+	var gotA, gotB [][]byte
+	c.OnEvent("alpha", func(a []byte) { gotA = append(gotA, a) })
+	c.OnEvent("beta", func(a []byte) { gotB = append(gotB, a) })
+	closes := 0
+	m.OnClose(func(Reason, error) { closes++ })
+	polling := verifAnyBool()
+	verifThreads(true)
+	verifGo(func() { srv.Emit("alpha", []byte{'A', 'A'}) })
+	verifGo(func() { srv.Emit("beta", []byte{'B'}) })
+	verifWaitQuiescent()
+	verifCarry(m, w.conn.eioPacketQueue.get(), polling)
+	verifWaitQuiescent()
+	verifAssert(len(gotA) == 1 && len(gotB) == 1, "both concurrently emitted events reach their handlers exactly once")
+	if len(gotA) == 1 && len(gotB) == 1 {
+		verifAssert(verifEqBytes(gotA[0], []byte{'A', 'A'}) && verifEqBytes(gotB[0], []byte{'B'}), "each with its own attachment, not another event's frame")
+	}
+	verifAssert(pipe.pending == nil && closes == 0, "no half-assembled packet is left in the decoder and the connection stays up")
+	verifReach("end")
+}
